@@ -29,6 +29,7 @@ extern void (*ABTD_verif_hook)(const void *, int);
 #define OP_RMW 3
 #define OP_CAS 4
 #define OP_SYNC 5 /* virtualised kernel operation */
+#define OP_POINT 6 /* scheduling point requested by the driver: neither polling nor progress */
 
 /* ------------------------------------------------------------------ real symbols */
 int __real_pthread_create(pthread_t *, const pthread_attr_t *, void *(*)(void *), void *);
@@ -298,7 +299,9 @@ static void point_locked(int op, int force)
         g_vclock += g_tick;
         fire_timers();
     }
-    if (op == OP_LOAD || op == OP_SYNC) {
+    if (op == OP_POINT) {
+        /* nothing to account */
+    } else if (op == OP_LOAD || op == OP_SYNC) {
         if (A[me].epoch != g_epoch) {
             A[me].epoch = g_epoch;
             A[me].idle = 0;
@@ -362,7 +365,7 @@ void abtv_point(void)
 {
     if (SERIAL()) {
         LOCK();
-        point_locked(OP_SYNC, 0);
+        point_locked(OP_POINT, 0);
         UNLOCK();
     }
 }
